@@ -31,6 +31,8 @@ def make_req(ctx, rng, cache, ep, algo, key, data):
         req["key"] = key
     if ep == "writer_hash_size":
         req["opts"]["size"] = len(data)
+    if len(lens) > 1 and rng.random() < 0.4:
+        req["flush_after"] = [rng.randrange(len(lens) - 1)]
     return req
 
 
